@@ -17,7 +17,7 @@ ENGINES = [
 
 _RULE = ("cases of four families from one seeded generator: (a) an App built through AppBuilder::new_custom() with recording/accepting/failing "
          "modules in a random subset of the 7 module slots (+ api/storage/block/wasm steps), then 6-14 (thorough 24) ops: messages of all 9 kinds sent "
-         "top-level, as sub-messages of a native contract and of an Empty-typed contract lifted by new_with_empty (1-3 messages per transaction), "
+         "top-level and as sub-messages returned from each of the five entry points (instantiate of a fresh instance, execute, migrate by an admin u2 != sender, sudo, reply) of a native contract and of an Empty-typed contract lifted by new_with_empty(..).with_sudo_empty.with_reply_empty.with_migrate_empty (1-3 messages per transaction), "
          "queries of 7 kinds, sudo of 3 kinds, each followed by `records` and storage dumps; (b) 0-6 (thorough 11) builder steps with repetitions, "
          "built and fully observed (block, storage, init count, api prefix, wasm keeper, all 19 probes), then 1-2 re-orderings that keep the last step "
          "per component, observed again; (c) ContractWrapper: new/new_with_empty + 0-5 (7) with_* steps incl. _empty variants and re-orderings; "
@@ -35,7 +35,7 @@ PROPS = {
                       "hand-written semantics of `match` it is proved, for every message/query/sudo kind and every cargo-feature combination, that "
                       "exactly one arm exists, that it hands context, sender and payload unchanged to the module slot of that kind and returns its "
                       "result, and that lifting an Empty-typed contract's sub-message keeps kind, payload and envelope (all kinds except custom, R3). "
-                      "Sub-message routing with the contract as sender and roll-back after a failing module are covered by correspondence and the "
+                      "Two engine-model theorems restate that module messages are handed on intact and that migrate's sub-messages are dispatched by the contract. On the real code, sub-message routing from every entry point with the emitting contract as sender and roll-back after a failing module are covered by correspondence and the "
                       "model-free predicate on the real App, not by a theorem of this slice.",
         "level_note": "Trusted: Lean kernel (no axioms beyond propext/Classical.choice/Quot.sound), the two ~250-line translators, the match/rebuild "
                       "semantics, Rust's type checking of module slots. Query kinds per R3; CosmosMsg::Custom from an Empty-typed contract excluded (R3).",
